@@ -645,8 +645,10 @@ func (s *Switch) UpdateForwardingPolicies(
 	for targetLink, policy := range chanPolicies {
 		cid := lnwire.NewChanIDFromOutPoint(targetLink)
 
-		link, ok := s.linkIndex[cid]
-		if !ok {
+		// Consult both the live and the pending link index, so that a
+		// link which isn't live yet doesn't miss the update.
+		link, err := s.getLink(cid)
+		if err != nil {
 			log.Debugf("Unable to find ChannelPoint(%v) to update "+
 				"link policy", targetLink)
 			continue
